@@ -35,6 +35,8 @@ inductive ErrKind where
 
 abbrev Res (β : Type) := Except ErrKind (List β)
 
+deriving instance DecidableEq for Except
+
 section
 variable {α β κ : Type}
 
